@@ -3,11 +3,11 @@ from __future__ import annotations
 from rfbgen import *  # noqa
 
 ID = "C03"
-PROOF_MODULES = ["VncProofs.C03"]
+PROOF_MODULES = ["VncProofs.C03", "VncProofs.C14Conv"]
 THEOREMS = ["Vnc.C03_version", "Vnc.C03_reply_bytes", "Vnc.C03_banner_step", "Vnc.C03_sectype", "Vnc.C03_sectype_chosen",
             "Vnc.C03_supported_auths", "Vnc.C03_made_only_after_serverinit", "Vnc.C03_clientinit_sources", "Vnc.C03_close_final",
             "Vnc.C03_result", "Vnc.C03_reason", "Vnc.C03_no_password", "Vnc.C03_refused_33", "Vnc.C03_failed_38", "Vnc.C03_none_37",
-            "Vnc.C03_none_38", "Vnc.C01_seg_indep"]
+            "Vnc.C03_none_38", "Vnc.C01_seg_indep", "Vnc.C14_ard_conversation_38"]
 TRUSTED = [
     "Lean 4.33 kernel; standard axioms only",
     "SUPPORTED_SERVER_VERSIONS / MAX_CLIENT_VERSION / SUPPORTED_AUTHS are re-extracted from the source on every run (C03_version, C03_supported_auths are re-checked against them)",
